@@ -52,6 +52,9 @@ pub(crate) mod impl_splits {
         #[cfg(not(feature = "vmem"))]
         impl<T, const N: usize> StackSplit<$Struct<StackStorage<T, N>>> for $Struct<StackStorage<T, N>> {
             fn split(&mut self) -> (ProdIter<$Struct<StackStorage<T, N>>>, ConsIter<$Struct<StackStorage<T, N>>, false>) {
+                self.set_prod_index(0);
+                self.set_work_index(0);
+                self.set_cons_index(0);
                 self.set_prod_alive(true);
                 self.set_cons_alive(true);
 
@@ -63,6 +66,9 @@ pub(crate) mod impl_splits {
             }
 
             fn split_mut(&mut self) -> (ProdIter<$Struct<StackStorage<T, N>>>, WorkIter<$Struct<StackStorage<T, N>>>, ConsIter<$Struct<StackStorage<T, N>>, true>) {
+                self.set_prod_index(0);
+                self.set_work_index(0);
+                self.set_cons_index(0);
                 self.set_prod_alive(true);
                 self.set_work_alive(true);
                 self.set_cons_alive(true);
